@@ -218,6 +218,16 @@ theorem iblt_bucket_indices_total (H : Iblt.Hash) (numBuckets : Nat) (hash : Bit
   simp only [ibltCfg_bounded.1, ↓reduceIte]
   exact bucketIndicesNew_spec _ ibltCfg_bounded.2 H numBuckets hash
 
+/-- … and it returns EXACTLY min(k, numBuckets) DISTINCT indices (what Insert/Delete rely on: a key is added to / removed
+    from k different buckets), also when the hash chain is stuck on a short cycle and linear probing takes over -/
+theorem iblt_bucket_indices_exact (H : Iblt.Hash) (numBuckets : Nat) (hnb : numBuckets ≤ 2147483648) (hash : BitVec 64) (ind : List Nat)
+    (h : Iblt.bucketIndices Sites.ibltCfg H numBuckets hash = .ok ind) :
+    ind.Nodup ∧ ind.length = min 6 numBuckets := by
+  unfold Iblt.bucketIndices at h
+  simp only [ibltCfg_bounded.1, ↓reduceIte] at h
+  have := bucketIndicesNew_card Sites.ibltCfg ibltCfg_bounded.2 (by decide) H numBuckets hnb hash ind h
+  simpa [fact_cfg_is_fixed.2.2.1] using this
+
 /-- Insert and Delete of ANY key into ANY table succeed (no index panic, no hang) and keep the number of buckets -/
 theorem iblt_insert_delete_total (H : Iblt.Hash) (bs : Array Iblt.Bucket) (key : Iblt.Key) :
     (∃ r, Iblt.insert Sites.ibltCfg H bs key = .ok r ∧ r.size = bs.size) ∧
@@ -340,8 +350,13 @@ example : Callback.audienceLoop { assertChecked := false }
 theorem model_panics_only_at_listed_sites :
     (∀ c up i tp m u s, Dpop.validate c up i tp m u = .panic s → s ∈ Dpop.sites.map (·.2)) ∧
     (∀ c ctx s, Resolver.baseUrl c ctx = .panic s → s ∈ Resolver.sites.map (·.2)) ∧
+    (∀ c keyID didOk doc rt s, Resolver.resolveKeyByID c keyID didOk doc rt = .panic s → s ∈ Resolver.sites.map (·.2)) ∧
+    (∀ c doc rt s, Resolver.resolveKey c doc rt = .panic s → s ∈ Resolver.sites.map (·.2)) ∧
+    (∀ bs idx v s, Bitstring.bit bs idx ≠ .panic s ∧ Bitstring.setBit bs idx v ≠ .panic s) ∧
     (∀ c e s, Callback.withCallbackURI c e = .panic s → s ∈ Callback.sites.map (·.2)) := by
-  refine ⟨?_, ?_, ?_⟩
+  refine ⟨?_, ?_, fun c keyID didOk doc rt s h => resolveKeyByID_sites c keyID didOk doc rt s h,
+    fun c doc rt s h => resolveKey_sites c doc rt s h,
+    fun bs idx v s => ⟨bit_no_panic bs idx s, (setBit_spec bs idx v).1 s⟩, ?_⟩
   · intro c up i tp m u s h
     exact dpop_validate_sites c up i tp m u s h
   · intro c ctx s h
